@@ -618,7 +618,9 @@ spifconf_shell_expand(spif_charptr_t s)
                   }
                   /* (Drop the closing parenthesis.) */
                   *(--tmp1) = 0;
-                  Command = spifconf_shell_expand(Command);
+                  /* (Expanded in place.  The return value is NULL if the expansion failed,
+                     so do not let it replace the pointer to the buffer.) */
+                  spifconf_shell_expand(Command);
                   Output = (spif_charptr_t) (builtins[k].ptr) (Command);
                   FREE(Command);
                   if (Output) {
@@ -652,7 +654,7 @@ spifconf_shell_expand(spif_charptr_t s)
                       /* No closing backquote.  Stay in front of the terminator. */
                       pbuff--;
                   }
-                  Command = spifconf_shell_expand(Command);
+                  spifconf_shell_expand(Command);
                   Output = builtin_exec(Command);
                   FREE(Command);
                   if (Output) {
